@@ -68,6 +68,9 @@ def _to_dense(ctx, step):
 
 @action("matmul")
 def _matmul(ctx, step):
+    if "b" in ctx.env and not step["arg"]:
+        a, b = ctx.env["a"], ctx.env["b"]
+        return _set_r(ctx, [("a @ b", a @ b), ("a.matmul(b)", a.matmul(b))])
     op = _op(ctx, step)
     X = ctx.T(step["arg"])
     return [("op @ X", op @ X), ("op.matmul(X)", op.matmul(X)), ("torch.matmul(op, X)", torch.matmul(op, X))]
@@ -110,7 +113,7 @@ def judge(expect, label, got, dtype, loose=1.0, check_dtype=True):
     return (None if msg is None else "%s: %s" % (label, msg)), err
 
 
-def run_behaviour(beh, loose=1.0, check_dtype=True, allow=None):
+def run_behaviour(beh, loose=1.0, check_dtype=True, allow=None, stop_at_first=False):
     """Execute one behaviour. Returns dict(steps=int, mismatches=[{step, act, msg}], maxerr, raised)"""
     warnings.simplefilter("ignore")
     ctx = Ctx(beh)
@@ -121,6 +124,8 @@ def run_behaviour(beh, loose=1.0, check_dtype=True, allow=None):
         try:
             pairs = ACTIONS[act](ctx, step)
         except Exception as e:  # noqa
+            if isinstance(e, KeyError) and e.args and e.args[0] in ("r", "a", "b", "op") and out["mismatches"]:
+                continue  # the step that should have produced this value already failed (reported there)
             if isinstance(expect, dict) and expect.get("raises"):
                 out["steps"] += 1
                 out["obs"] += 1
@@ -130,13 +135,14 @@ def run_behaviour(beh, loose=1.0, check_dtype=True, allow=None):
                 continue
             out["mismatches"].append(dict(step=i, act=act, msg="raised " + exc_summary(e), kind="raised",
                                           exc=type(e).__name__))
-            if act == "construct":
+            if act == "construct" or stop_at_first:
                 break
             continue
         out["steps"] += 1
         if isinstance(expect, dict) and expect.get("raises"):
             out["mismatches"].append(dict(step=i, act=act, msg="expected an exception, call returned", kind="noraise"))
             continue
+        stop = False
         for label, got in pairs:
             out["obs"] += 1
             try:
@@ -145,7 +151,213 @@ def run_behaviour(beh, loose=1.0, check_dtype=True, allow=None):
                 msg, err = "%s: densifying the result raised %s" % (label, exc_summary(e)), math.inf
             if msg:
                 out["mismatches"].append(dict(step=i, act=act, msg=msg, kind="value", label=label))
+                stop = True
                 break
             if err != math.inf:
                 out["maxerr"] = max(out["maxerr"], err)
+        if stop and stop_at_first:
+            break  # later steps operate on the wrong value: their failures would only be consequences
     return out
+
+
+# ------------------------------------------------------------------ C02 actions (algebra)
+def _scalar(ctx, spec):
+    kind, c = spec["kind"], spec["c"]
+    if kind in (1, 2, 3):
+        return float(c["data"][0])
+    return ctx.T(c)
+
+
+@action("construct_a")
+def _construct_a(ctx, step):
+    op = bind.build(step["arg"], ctx.dt, ctx.leaves)
+    ctx.env["a"] = op
+    return [("a.shape", torch.Size(op.shape))]
+
+
+@action("construct_b")
+def _construct_b(ctx, step):
+    op = bind.build(step["arg"], ctx.dt, ctx.leaves)
+    ctx.env["b"] = op
+    return [("b.shape", torch.Size(op.shape))]
+
+
+def _set_r(ctx, pairs):
+    ctx.env["r"] = pairs[0][1]
+    return pairs
+
+
+@action("add")
+def _add(ctx, step):
+    a, b = ctx.env["a"], ctx.env["b"]
+    return _set_r(ctx, [("a + b", a + b), ("a.add(b)", a.add(b)), ("torch.add(a, b)", torch.add(a, b))])
+
+
+@action("sub")
+def _sub(ctx, step):
+    a, b = ctx.env["a"], ctx.env["b"]
+    return _set_r(ctx, [("a - b", a - b), ("a.sub(b)", a.sub(b)), ("a.add(b, alpha=-1)", a.add(b, alpha=-1.0))])
+
+
+@action("add_t")
+def _add_t(ctx, step):
+    a, T = ctx.env["a"], ctx.T(step["arg"])
+    return _set_r(ctx, [("a + T", a + T), ("a.add(T)", a.add(T))])
+
+
+@action("radd_t")
+def _radd_t(ctx, step):
+    a, T = ctx.env["a"], ctx.T(step["arg"])
+    return _set_r(ctx, [("T + a", T + a), ("torch.add(T, a)", torch.add(T, a))])
+
+
+@action("sub_t")
+def _sub_t(ctx, step):
+    a, T = ctx.env["a"], ctx.T(step["arg"])
+    return _set_r(ctx, [("a - T", a - T)])
+
+
+@action("rsub_t")
+def _rsub_t(ctx, step):
+    a, T = ctx.env["a"], ctx.T(step["arg"])
+    return _set_r(ctx, [("T - a", T - a)])
+
+
+@action("mul")
+def _mul(ctx, step):
+    a, c = ctx.env["a"], _scalar(ctx, step["arg"])
+    return _set_r(ctx, [("a * c", a * c), ("a.mul(c)", a.mul(c))])
+
+
+@action("rmul")
+def _rmul(ctx, step):
+    a, c = ctx.env["a"], _scalar(ctx, step["arg"])
+    return _set_r(ctx, [("c * a", c * a)])
+
+
+@action("div")
+def _div(ctx, step):
+    a, c = ctx.env["a"], _scalar(ctx, step["arg"])
+    return _set_r(ctx, [("a / c", a / c), ("a.div(c)", a.div(c))])
+
+
+@action("expand_neg1")
+@action("expand_lead")
+@action("expand_one")
+def _expand(ctx, step):
+    a = ctx.env["a"]
+    sz = step["arg"]
+    return _set_r(ctx, [("a.expand(*sizes)", a.expand(*sz)), ("a.expand(torch.Size)", a.expand(torch.Size(sz)) if all(s >= 0 for s in sz) else a.expand(*sz))])
+
+
+@action("repeat")
+def _repeat(ctx, step):
+    return _set_r(ctx, [("a.repeat(*reps)", ctx.env["a"].repeat(*step["arg"]))])
+
+
+@action("unsqueeze0")
+@action("unsqueeze_m3")
+def _unsqueeze(ctx, step):
+    a = ctx.env["a"]
+    return _set_r(ctx, [("a.unsqueeze(d)", a.unsqueeze(step["arg"])), ("torch.unsqueeze(a, d)", torch.unsqueeze(a, step["arg"]))])
+
+
+@action("squeeze")
+def _squeeze(ctx, step):
+    a = ctx.env["a"]
+    return _set_r(ctx, [("a.squeeze(d)", a.squeeze(step["arg"]))])
+
+
+@action("permute")
+def _permute(ctx, step):
+    a = ctx.env["a"]
+    return _set_r(ctx, [("a.permute(*dims)", a.permute(*step["arg"])), ("a.permute(neg dims)", a.permute(*[d - a.dim() for d in step["arg"]]))])
+
+
+@action("transpose_b")
+def _transpose_b(ctx, step):
+    a = ctx.env["a"]
+    d1, d2 = step["arg"]
+    return _set_r(ctx, [("a.transpose(d1, d2)", a.transpose(d1, d2)), ("a.transpose(d2, d1)", a.transpose(d2, d1))])
+
+
+@action("sum_b")
+@action("sum_m1")
+@action("sum_m2")
+def _sum(ctx, step):
+    a = ctx.env["a"]
+    return _set_r(ctx, [("a.sum(d)", a.sum(step["arg"])), ("torch.sum(a, d)", torch.sum(a, step["arg"]))])
+
+
+@action("add_diagonal")
+def _add_diagonal(ctx, step):
+    a = ctx.env["a"]
+    return _set_r(ctx, [("a.add_diagonal(d)", a.add_diagonal(ctx.T(step["arg"])))])
+
+
+@action("add_jitter")
+def _add_jitter(ctx, step):
+    return _set_r(ctx, [("a.add_jitter(c)", ctx.env["a"].add_jitter(float(step["arg"])))])
+
+
+@action("mul_op")
+def _mul_op(ctx, step):
+    a, b = ctx.env["a"], ctx.env["b"]
+    return _set_r(ctx, [("a * b", a * b)])
+
+
+@action("mul_t")
+def _mul_t(ctx, step):
+    a, T = ctx.env["a"], ctx.T(step["arg"])
+    return _set_r(ctx, [("a * T", a * T)])
+
+
+@action("add_low_rank")
+def _add_low_rank(ctx, step):
+    return _set_r(ctx, [("a.add_low_rank(V)", ctx.env["a"].add_low_rank(ctx.T(step["arg"])))])
+
+
+@action("cat_rows")
+def _cat_rows(ctx, step):
+    a = ctx.env["a"]
+    return _set_r(ctx, [("a.cat_rows(cross, new)", a.cat_rows(ctx.T(step["arg"]["cross"]), ctx.T(step["arg"]["new"])))])
+
+
+@action("prod_b")
+def _prod_b(ctx, step):
+    a = ctx.env["a"]
+    return _set_r(ctx, [("a.prod(d)", a.prod(step["arg"]))])
+
+
+@action("tail_matmul")
+def _tail_matmul(ctx, step):
+    return [("r @ X", ctx.env["r"] @ ctx.T(step["arg"]))]
+
+
+@action("tail_t_matmul")
+def _tail_t_matmul(ctx, step):
+    return [("r.mT @ X", ctx.env["r"].mT @ ctx.T(step["arg"]))]
+
+
+@action("tail_add_diagonal")
+def _tail_add_diagonal(ctx, step):
+    r = ctx.env["r"]
+    d = ctx.T(step["arg"])
+    if isinstance(r, torch.Tensor):
+        return [("r + diag_embed(d)", r + torch.diag_embed(d))]
+    return [("r.add_diagonal(d)", r.add_diagonal(d))]
+
+
+@action("tail_transpose")
+def _tail_transpose(ctx, step):
+    return [("r.mT", ctx.env["r"].mT)]
+
+
+@action("tail_mul")
+def _tail_mul(ctx, step):
+    return [("r * c", ctx.env["r"] * float(step["arg"]["data"][0]))]
+
+
+@action("tail_rsub_t")
+def _tail_rsub_t(ctx, step):
+    return [("T - r", ctx.T(step["arg"]) - ctx.env["r"])]
